@@ -61,19 +61,42 @@ func (s *sender) SendToPeer(peerID identity.AgentID, frame *protocol.Frame) erro
 }
 func (s *sender) GetPeerIDs() []identity.AgentID { return s.peers }
 
+type localNet struct {
+	net    *net.IPNet
+	metric uint16
+}
+
 type node struct {
-	id  identity.AgentID
-	mgr *routing.Manager
-	fl  *flood.Flooder
-	snd *sender
+	id   identity.AgentID
+	mgr  *routing.Manager
+	fl   *flood.Flooder
+	snd  *sender
+	nets []localNet // CIDR routes as configured (the spelling handed to AddLocalRoute)
 }
 
 func newNode(id identity.AgentID, name string, peers ...identity.AgentID) *node {
+	return newNodeHops(id, name, 0, peers...)
+}
+
+// newNodeHops: an agent whose routing.max_hops is maxHops (0 = no limit).
+func newNodeHops(id identity.AgentID, name string, maxHops int, peers ...identity.AgentID) *node {
 	n := &node{id: id, mgr: routing.NewManager(id), snd: &sender{peers: peers}}
 	cfg := flood.DefaultFloodConfig()
 	cfg.LocalDisplayName = name
+	cfg.MaxHops = maxHops
 	n.fl = flood.NewFlooder(cfg, id, n.mgr, n.snd)
 	return n
+}
+
+// addNet configures one CIDR route from its textual spelling, exactly as the
+// config loader and the dynamic-route API do (net.ParseCIDR).
+func (n *node) addNet(spelling string, metric uint16) {
+	_, ipn, err := net.ParseCIDR(spelling)
+	if err != nil {
+		panic("harness: bad CIDR " + spelling)
+	}
+	n.nets = append(n.nets, localNet{ipn, metric})
+	n.mgr.AddLocalRoute(ipn, metric)
 }
 
 // deliver hands one wire message to a node as coming from peer `from`.
@@ -178,6 +201,10 @@ type scenario struct {
 	RuneLen  int    `json:"rune_len,omitempty"` // display name: a rune of this many bytes (2..4) ...
 	RuneAt   int    `json:"rune_at,omitempty"`  // ... of which this many bytes lie before byte 255
 	Rounds   int    `json:"rounds,omitempty"`
+	Special  bool   `json:"special_nets,omitempty"` // also configure the short-mask / IPv4-mapped / default-route spellings
+	HopsO    int    `json:"max_hops_origin,omitempty"`
+	HopsT    int    `json:"max_hops_transit,omitempty"`
+	Chain    int    `json:"chain,omitempty"`
 	Origins  int    `json:"origins,omitempty"` // full-table: number of remote origins
 	Name     string `json:"name,omitempty"`
 }
@@ -228,6 +255,43 @@ func (rn *runner) checkName(sc scenario, n *node, cfg string) {
 	}
 }
 
+// recordNets adds a CNets case: the configured CIDR networks (in the spelling
+// handed to the routing manager: address bytes, mask ones, mask bits, metric)
+// and the CIDR routes the implementation put on the wire for them.
+func (rn *runner) recordNets(sc scenario, n *node, advs []*protocol.RouteAdvertise) {
+	if len(n.nets) == 0 || len(rn.coq) >= rn.maxRec {
+		return
+	}
+	// harness sanity: the spellings are pairwise distinct networks
+	cnt := 0
+	for _, e := range tableOf(n, nil, 0)[n.id.String()] {
+		if strings.HasPrefix(e, "c|") {
+			cnt++
+		}
+	}
+	if cnt != len(n.nets) {
+		rn.c.Fail("harness-cidr-collision", fmt.Sprintf("%d CIDR spellings configured, %d distinct networks in the table", len(n.nets), cnt), sc)
+	}
+	nets := make([]string, len(n.nets))
+	for i, ln := range n.nets {
+		ones, bits := ln.net.Mask.Size()
+		nets[i] = fmt.Sprintf("(%s, (%d, (%d, %d)))", cB([]byte(ln.net.IP)), ones, bits, ln.metric)
+	}
+	var emitted []string
+	for _, a := range advs {
+		if a == nil {
+			continue
+		}
+		for _, rt := range a.Routes {
+			if rt.AddressFamily == protocol.AddrFamilyIPv4 || rt.AddressFamily == protocol.AddrFamilyIPv6 {
+				emitted = append(emitted, cRoute(rt))
+			}
+		}
+	}
+	rn.c.Case(fmt.Sprintf("nets/%d", len(nets)), true, sc)
+	rn.coq = append(rn.coq, fmt.Sprintf("CNets %s %s", vh.CoqList(nets), vh.CoqList(emitted)))
+}
+
 // domainPattern builds a distinct valid pattern of roughly total length n (>= 8).
 func domainPattern(r *vh.Rand, i, n int) string {
 	base := fmt.Sprintf("d%d.ex", i)
@@ -248,19 +312,40 @@ func domainPattern(r *vh.Rand, i, n int) string {
 	return p
 }
 
-func cidr(i int, v6 bool) *net.IPNet {
-	if v6 {
-		ip := make(net.IP, 16)
-		ip[0], ip[1], ip[14], ip[15] = 0x20, 0x01, byte(i>>8), byte(i)
-		return &net.IPNet{IP: ip, Mask: net.CIDRMask(128, 128)}
+// cidrSpelling is the i-th configured CIDR route as text. Distinct i give
+// distinct canonical networks. The spellings cover IPv4 and IPv6 host routes
+// and prefixes, and IPv4 networks written in IPv4-mapped IPv6 notation
+// (::ffff:a.b.c.d/96+n), which routing.Table canonicalises to a.b.c.d/n.
+func cidrSpelling(i int) string {
+	a, b, c := byte(i>>16), byte(i>>8), byte(i)
+	switch i % 10 {
+	case 4:
+		return fmt.Sprintf("2001:db8::%x:%x/128", int(a)<<8|int(b), c)
+	case 9:
+		return fmt.Sprintf("2001:db8:%x:%x::/64", int(a)<<8|int(b), c)
+	case 3:
+		return fmt.Sprintf("::ffff:10.%d.%d.%d/128", a, b, c) // mapped host route = 10.a.b.c/32
+	case 7:
+		return fmt.Sprintf("::ffff:11.%d.%d.0/120", b, c) // mapped = 11.b.c.0/24
+	case 6:
+		return fmt.Sprintf("12.%d.%d.0/24", b, c)
+	default:
+		return fmt.Sprintf("10.%d.%d.%d/32", a, b, c)
 	}
-	return &net.IPNet{IP: net.IPv4(10, byte(i>>16), byte(i>>8), byte(i)).To4(), Mask: net.CIDRMask(32, 32)}
 }
+
+// specialNets: one of each remaining shape (short masks cannot be made distinct per index)
+var specialNets = []string{"::ffff:172.16.0.0/108", "::ffff:192.168.0.0/112", "::ffff:0:0/96", "::/0", "::ffff:0:0/90", "100.64.0.0/10", "fc00::/7", "::ffff:198.51.100.7/128"}
 
 // populate configures local routes on a node according to the scenario.
 func populate(r *vh.Rand, n *node, sc scenario, salt int) {
 	for i := 0; i < sc.NCIDR; i++ {
-		n.mgr.AddLocalRoute(cidr(salt*100000+i, i%5 == 4), uint16(r.Pick(0, 0, 1, 5, 1000)))
+		n.addNet(cidrSpelling(salt*100000+i), uint16(r.Pick(0, 0, 1, 5, 1000)))
+	}
+	if sc.Special {
+		for _, sp := range specialNets {
+			n.addNet(sp, uint16(r.Pick(0, 1, 9)))
+		}
 	}
 	for i := 0; i < sc.NDomain; i++ {
 		// a pattern the wire format cannot carry (> 255 bytes) must be refused here;
@@ -388,6 +473,9 @@ func (rn *runner) runAnnounce(sc scenario) {
 	}
 	payloads, advs, _ := payloadsOf(o.snd.wire)
 	rn.record(sc, oID, payloads, advs)
+	if sc.Special || sc.NCIDR <= 40 {
+		rn.recordNets(sc, o, advs)
+	}
 }
 
 // bestAgents keeps, of the agent presence entries ("a|<agent>|<metric>"), the
@@ -807,6 +895,80 @@ func (rn *runner) sequenceStorm(goroutines, each int) {
 	}
 }
 
+// runMixedHops: agents with different routing.max_hops. The origin (HopsO)
+// announces route sets that fill an advertisement's byte budget; a transit M
+// with another limit (HopsT) learns them directly and replays them to a new
+// peer N1; and the announcement travels down a chain of Chain transits. The
+// new peer and the last agent of the chain must learn exactly the origin's
+// routes: a group must neither be split again under its sequence number nor
+// outgrow the frame payload on the way.
+func (rn *runner) runMixedHops(sc scenario) {
+	c := rn.c
+	r := vh.NewRand(sc.CaseSeed)
+	oID, mID, n1ID := mkID(r, 0xA4), mkID(r, 0xC4), mkID(r, 0xE4)
+	o := newNodeHops(oID, label(r, sc.NameLen), sc.HopsO, mID)
+	m := newNodeHops(mID, "m", sc.HopsT)
+	n1 := newNodeHops(n1ID, "n1", sc.HopsT)
+	defer o.fl.Stop()
+	defer m.fl.Stop()
+	defer n1.fl.Stop()
+	populate(r, o, sc, 1)
+	o.fl.AnnounceLocalRoutes()
+	issued := map[advKey]bool{}
+	_, advs, _ := payloadsOf(o.snd.wire)
+	for _, a := range advs {
+		if a != nil {
+			issued[advKey{a.OriginAgent, a.Sequence}] = true
+		}
+	}
+	for _, w := range o.snd.wire {
+		m.deliver(oID, w.data)
+	}
+	rn.replayAndCheck(sc, m, n1, issued)
+
+	// the chain: O -> T1 -> T2 -> ... -> Tk, every transit a real flooder with its successor as peer
+	ids := make([]identity.AgentID, sc.Chain+1)
+	for i := range ids {
+		ids[i] = mkID(r, byte(0x70+i))
+	}
+	nodes := make([]*node, sc.Chain)
+	for i := range nodes {
+		nodes[i] = newNodeHops(ids[i], fmt.Sprint("t", i), sc.HopsT, ids[i+1])
+		defer nodes[i].fl.Stop()
+	}
+	last := newNodeHops(ids[sc.Chain], "last", sc.HopsT)
+	defer last.fl.Stop()
+	wire, from := o.snd.wire, oID
+	var problems []string
+	for i := 0; i <= sc.Chain; i++ {
+		cur := last
+		if i < sc.Chain {
+			cur = nodes[i]
+		}
+		for _, w := range wire {
+			if e := cur.deliver(from, w.data); e != "" {
+				problems = append(problems, fmt.Sprintf("hop %d: %s", i+1, e))
+			}
+		}
+		if len(cur.snd.sendErrs) > 0 {
+			problems = append(problems, fmt.Sprintf("hop %d cannot forward: %v", i+1, cur.snd.sendErrs[0]))
+		}
+		wire, from = cur.snd.wire, cur.id
+	}
+	want := tableOf(o, nil, sc.Chain+1)[oID.String()]
+	want = append(want, fmt.Sprintf("a|%s|%d", oID.String(), sc.Chain+1))
+	sort.Strings(want)
+	got := tableOf(last, nil, 0)[oID.String()]
+	c.Count("mixed-hops:chain")
+	if d := diff(want, got); d != "" || len(problems) > 0 {
+		if len(problems) > 3 {
+			problems = problems[:3]
+		}
+		c.Fail("chain-mismatch", fmt.Sprintf("origin max_hops=%d, transits max_hops=%d: after %d hops the last agent learned %d of %d routes; %s; %v",
+			sc.HopsO, sc.HopsT, sc.Chain+1, len(got), len(want), d, problems), sc)
+	}
+}
+
 func (rn *runner) run(sc scenario) {
 	switch sc.Kind {
 	case "full-table":
@@ -817,6 +979,8 @@ func (rn *runner) run(sc scenario) {
 		rn.runTwoPaths(sc)
 	case "concurrent":
 		rn.runConcurrent(sc)
+	case "mixed-hops":
+		rn.runMixedHops(sc)
 	case "sequence-storm":
 		rn.sequenceStorm(sc.Origins, sc.Rounds)
 	default:
@@ -851,6 +1015,12 @@ func main() {
 		{Kind: "announce", Name: "70-long-domains", NDomain: 70, LongDom: 250, NameLen: 4},
 		{Kind: "announce", Name: "40-long-forwards", NForward: 40, LongFwd: 240, NameLen: 255},
 		{Kind: "announce", Name: "display-name-300-bytes", NCIDR: 3, NDomain: 2, LongDom: 12, NameLen: 300},
+		{Kind: "announce", Name: "cidr-spellings", NCIDR: 20, Special: true, NameLen: 4},
+		{Kind: "full-table", Name: "cidr-spellings-replayed", NCIDR: 20, Special: true, Origins: 1, NameLen: 4},
+		{Kind: "forward", Name: "cidr-spellings-reflooded", NCIDR: 20, Special: true, NameLen: 4},
+		{Kind: "mixed-hops", Name: "budget-filling-domains-origin-4-transits-unlimited", NDomain: 70, LongDom: 250, HopsO: 4, HopsT: 0, Chain: 2, NameLen: 255},
+		{Kind: "mixed-hops", Name: "budget-filling-domains-origin-4-transits-32", NDomain: 70, LongDom: 250, NCIDR: 5, HopsO: 4, HopsT: 32, Chain: 14, NameLen: 255},
+		{Kind: "mixed-hops", Name: "budget-filling-forwards-origin-2-transits-64", NForward: 40, LongFwd: 240, HopsO: 2, HopsT: 64, Chain: 14, NameLen: 4},
 		{Kind: "announce", Name: "display-name-2-byte-rune-0-before-255", NCIDR: 2, RuneLen: 2, RuneAt: 0},
 		{Kind: "announce", Name: "display-name-2-byte-rune-1-before-255", NCIDR: 2, RuneLen: 2, RuneAt: 1},
 		{Kind: "announce", Name: "display-name-3-byte-rune-0-before-255", NCIDR: 2, RuneLen: 3, RuneAt: 0},
@@ -886,7 +1056,7 @@ func main() {
 	small := []int{0, 0, 1, 2, 3, 10, 40}
 	n := c.N(16, 600)
 	for i := 0; i < n; i++ {
-		sc := scenario{Kind: "announce", CaseSeed: int64(c.Rand.U64() >> 1), NameLen: c.Rand.Pick(0, 1, 8, 254, 255, 256, 300), RuneLen: c.Rand.Pick(0, 0, 0, 2, 3, 4), RuneAt: c.Rand.Intn(4),
+		sc := scenario{Kind: "announce", CaseSeed: int64(c.Rand.U64() >> 1), NameLen: c.Rand.Pick(0, 1, 8, 254, 255, 256, 300), RuneLen: c.Rand.Pick(0, 0, 0, 2, 3, 4), RuneAt: c.Rand.Intn(4), Special: c.Rand.Chance(1, 3),
 			LongDom: c.Rand.Pick(8, 12, 30, 100, 200, 250, 253, 255, 256, 300), LongFwd: c.Rand.Pick(1, 6, 30, 120, 240, 249, 250, 251, 300)}
 		switch c.Rand.Intn(5) {
 		case 0:
